@@ -167,7 +167,8 @@ func (p *Processor) ChargingDataCreate(
 
 	consumerId := chargingData.NfConsumerIdentification.NFName
 	if !chargingData.OneTimeEvent {
-		chargingSessionId = ueId + consumerId + strconv.Itoa(int(self.NewLocalRecordSequenceNumber()))
+		// the separator keeps ids distinct for consumer names that end in digits
+		chargingSessionId = ueId + consumerId + "-" + strconv.Itoa(int(self.NewLocalRecordSequenceNumber()))
 	}
 	cdr, err := p.OpenCDR(chargingData, ue, chargingSessionId, false)
 	if err != nil {
